@@ -15,6 +15,7 @@ import DiskfsModel.Model.Fat.Fs
 import DiskfsModel.Proofs.FatGeomGen
 import DiskfsModel.Proofs.FatFlatFs
 import DiskfsModel.Proofs.FatTreeStep
+import DiskfsModel.Proofs.FatTreeFit
 import DiskfsModel.Generated.Fat
 import DiskfsModel.Proofs.FatBoot
 import DiskfsModel.Spec.FatBoot
@@ -337,6 +338,27 @@ theorem dir_rewrite_sound (g : TGeom) (fuel : Nat) (m : CMap) (d : Dev) (chain :
     (∀ o ∈ R, chainBytes w.d g.f.io o = chainBytes d g.f.io o) ∧
     (chain ≠ [] → w.chain.length = dirNeed g base ks) :=
   writeDir_ok hg hfuel h hw
+
+/-- **tree_dirs_fit**: no directory is ever larger than its chain. `TFit`: every chained directory
+    of the tree (the FAT32 root included) has exactly the clusters its entries need — what
+    `writeDirectoryEntries` leaves behind — and the fixed FAT12/16 root has a slot for every entry.
+    Every path-addressed call, accepted or refused for whatever reason, keeps that: in particular a
+    Remove / Rename that is refused for lack of space has not cut the parent directory short of its
+    entries (the defect of finding fat-rename-enospc-truncates-dir, fixed by 5b30bf0). -/
+theorem tree_dirs_fit (eqn) (g : TGeom) (fuel : Nat) (s : DirSt) (op : TOp)
+    (he : EqnOk eqn) (hb64 : 64 ≤ g.f.io.bpc) (h : TInv eqn g s) (hfit : TFit g s) :
+    TFit g (tstep eqn g fuel s op).1 :=
+  tstep_fit he hb64 s op h hfit
+
+/-- … and after every history (induction over the call list) -/
+theorem tree_dirs_fit_history (eqn) (g : TGeom) (fuel : Nat) (ops : List TOp) (s : DirSt)
+    (he : EqnOk eqn) (hg : TGeomOk g) (hfuel : g.f.lim - 2 ≤ fuel) (hb64 : 64 ≤ g.f.io.bpc)
+    (h : TInv eqn g s) (hfit : TFit g s) : TFit g (trun eqn g fuel s ops) :=
+  trun_fit he hg hfuel hb64 ops s h hfit
+
+/-- non-vacuity: directory "B" (two clusters of 64 bytes, two slots per name) holding the file "A" -/
+example : TGeomOk exTGeom2 ∧ 64 ≤ exTGeom2.f.io.bpc ∧ TInv exEqn exTGeom2 exTree2 ∧ TFit exTGeom2 exTree2 :=
+  ⟨exTGeom2_ok, by decide, exTree2_inv, exTree2_fit⟩
 
 /-- non-vacuity of the tree theorems' hypotheses -/
 example : EqnOk exEqn ∧ TGeomOk exTGeom ∧ exTGeom.f.lim - 2 ≤ 8 ∧ TInv exEqn exTGeom exTree :=
